@@ -172,6 +172,117 @@ def expected : List Val × Option (Fail Exc) → Seen Val Exc
   | (vs, some (.raised e)) => .stream vs (some e)
   | (_, some (.gate e)) => .submitRaised e
 
+/-! ### Round 5: the batch request as it arrives on the wire, and the pieces the transcription of the source
+    (`PyroModel/Gen/C11.lean`, written by harness/props/c11_tr.py from the AST of the checked tree) is stated over -/
+
+/-- What `Daemon.handleRequest` asks of a deserialised value `x : W` (server.py:443-447): nothing else is looked at.
+    `unpack x k` = the tuple assignment `a1, …, ak = x`: `none` = it raises. -/
+structure WireOps (W : Type) where
+  isSeq : W → Bool            -- isinstance(x, (list, tuple))
+  isDict : W → Bool           -- isinstance(x, dict)
+  len : W → Nat               -- len(x)
+  item : W → Nat → W          -- x[i]
+  unpack : W → Nat → Option (List W)
+  /-- unpacking a list/tuple of the right length gives its items in order -/
+  unpack_seq : ∀ x k, isSeq x = true → len x = k → unpack x k = some ((List.range k).map (item x))
+
+/-- The exceptions raised by the transcribed code itself (not by the remote object). -/
+structure SrcErrs (Exc : Type) where
+  typeError : Exc        -- `raise TypeError(...)` of the batch-item check (server.py:446)
+  unpackError : Exc      -- a tuple assignment that does not fit
+  notIterable : Exc      -- iterating a reply that is `None`
+  notABatch : Exc        -- `pyroInvokeW` asked for a request without FLAGS_BATCH (not this model's subject)
+
+/-- server.py:444-445 a batch item is acceptable: a list/tuple of length 3 whose 2nd member is a list/tuple and whose 3rd is a dict. -/
+def wellFormed {W : Type} (w : WireOps W) (c : W) : Bool :=
+  w.isSeq c && w.len c == 3 && w.isSeq (w.item c 1) && w.isDict (w.item c 2)
+
+/-- `method, vargs, kwargs = call` for a well-formed item. -/
+def decodeCall {W : Type} (w : WireOps W) (c : W) : W × (W × W) := (w.item c 0, (w.item c 1, w.item c 2))
+
+/-- The same object with every raised exception replaced by what `Daemon._serializeException(serializer, xv, tb)` hands
+    back first (`sent`: the exception itself, or the describing PyroError) — server.py:453-454. -/
+def sentObj (sent : Exc → Exc) (o : Obj St Name Arg Val Exc) : Obj St Name Arg Val Exc where
+  gate := o.gate
+  apply := fun s n a =>
+    match o.apply s n a with
+    | (s', .exc e) => (s', .exc (sent e))
+    | (s', .ok v) => (s', .ok v)
+
+/-- server.py:442-459 the loop over the items AS RECEIVED: the item check first (its TypeError leaves the loop and the
+    request exactly like a refused name: collected results dropped), then as `batchLoop`. -/
+def batchLoopW {W : Type} (w : WireOps W) (tyErr : Exc) (o : Obj St W (W × W) Val Exc) :
+    St → List W → List (Item Val Exc) → St × LoopResult Val Exc
+  | s, [], data => (s, .data data)
+  | s, c :: rest, data =>
+    if wellFormed w c then
+      match o.gate s (w.item c 0) with
+      | some e => (s, .escaped e)
+      | none =>
+        match o.apply s (w.item c 0) (w.item c 1, w.item c 2) with
+        | (s', .exc e) => (s', .data (data ++ [.wrapped e]))
+        | (s', .ok v) => batchLoopW w tyErr o s' rest (data ++ [.val v])
+    else (s, .escaped tyErr)
+
+/-- The reply to a batch request, given the loop's outcome (server.py:499-516 / 517-530; the same tail as `serverBatch`). -/
+def replyOf (oneway : Bool) : St × LoopResult Val Exc → St × Option (Reply Val Exc)
+  | (s', .escaped e) => (s', if oneway then none else some (.error e))
+  | (s', .data items) => (s', if oneway then none else some (.results items))
+
+/-- What `Proxy._pyroInvoke(...)` hands back to its caller: it raises, or returns `None` (oneway) / the reply's data. -/
+abbrev Invoked (Val Exc : Type) := Except Exc (Option (List (Item Val Exc)))
+
+/-- client.py:229-277 `_pyroInvoke` as far as a batch sees it: `pre` (dumpsCall) may raise before anything is sent; an
+    exception reply is raised; a oneway request returns `None`; otherwise the deserialised result list. -/
+def invokedOf (pre : Option Exc) (s : St) (run : St → St × Option (Reply Val Exc)) : St × Invoked Val Exc :=
+  match pre with
+  | some e => (s, .error e)
+  | none =>
+    match run s with
+    | (s', none) => (s', .ok none)
+    | (s', some (.error e)) => (s', .error e)
+    | (s', some (.results items)) => (s', .ok (some items))
+
+/-- `for x in reply:` — `None` is not iterable. -/
+def iterReply (errs : SrcErrs Exc) : Option (List (Item Val Exc)) → Except Exc (List (Item Val Exc))
+  | none => .error errs.notIterable
+  | some items => .ok items
+
+/-- `WireOps` whose `unpack` is defined from the other four operations (only lists/tuples can be unpacked). -/
+def WireOps.ofSeq {W : Type} (isSeq isDict : W → Bool) (len : W → Nat) (item : W → Nat → W) : WireOps W where
+  isSeq := isSeq
+  isDict := isDict
+  len := len
+  item := item
+  unpack := fun x k => if isSeq x = true ∧ len x = k then some ((List.range k).map (item x)) else none
+  unpack_seq := by intro x k h1 h2; simp [h1, h2]
+
+/-- A concrete, small universe of received values (driver, non-vacuity examples): a 3-sequence (name `n`, 2nd member a
+    sequence iff `okArgs`, 3rd a dict iff `okKw`), a 2-sequence, and the members. -/
+inductive PV where
+  | triple (okArgs okKw : Bool) (n a : Nat)
+  | short (n : Nat)
+  | name (n : Nat)
+  | args (a : Nat)
+  | kwargs (a : Nat)
+  | junk (n : Nat)
+  deriving Repr, DecidableEq
+
+def pvOps : WireOps PV := WireOps.ofSeq
+  (fun x => match x with | .triple .. => true | .short _ => true | .args _ => true | _ => false)
+  (fun x => match x with | .kwargs _ => true | _ => false)
+  (fun x => match x with | .triple .. => 3 | .short _ => 2 | _ => 0)
+  (fun x i => match x, i with
+    | .triple _ _ n _, 0 => .name n
+    | .triple ok _ _ a, 1 => if ok then .args a else .junk a
+    | .triple _ ok _ a, 2 => if ok then .kwargs a else .junk a
+    | _, _ => .junk 0)
+
+/-- an object over names/arguments `Nat` seen through `PV` values (anything that is not a name is a missing attribute) -/
+def pvObj (o : Obj St Nat Nat Val Exc) (missing : Exc) : Obj St PV (PV × PV) Val Exc where
+  gate := fun s n => match n with | .name n => o.gate s n | _ => some missing
+  apply := fun s n a => match n, a with | .name n, (.args a, _) => o.apply s n a | _, _ => (s, .exc missing)
+
 /-- One step of a client PROGRAM over several BatchProxy objects that share one Proxy (client.py:571-628):
     `record i c`  = `bp_i.<name>(args)`          (_BatchedRemoteMethod.__call__ appends to bp_i's own list)
     `copy i`      = `copy.copy(bp_i)`            (BatchProxy.__copy__: a NEW BatchProxy on the same Proxy whose list
